@@ -16,6 +16,7 @@ using sim::json::Value;
 namespace c18
 {
     std::string default_alignment_problem();
+    std::string eq_matrix_problem();
 }
 
 namespace
@@ -469,6 +470,10 @@ namespace
                 std::string dp = default_alignment_problem();
                 if (!dp.empty())
                     out.violate("C18/" + dp.substr(0, dp.find(':')), dp);
+                static const std::string eqp = eq_matrix_problem(); // pure compile-time matrix: evaluated once per process
+                ++cl_eq;
+                if (!eqp.empty())
+                    out.violate("C18/" + eqp.substr(0, eqp.find(':')), eqp);
             }
             log.rec("setup", (uint64_t)plan.setup.reuse, plan.setup.exact_align, plan.setup.zero_null, plan.setup.capacity);
             g_nh_mode = plan.setup.new_handler;
